@@ -96,7 +96,18 @@ int backup_copy_file(const char *filename, const vector<UINT8> &data)
       size_t retval   = fwrite(data.data(), data.size(), 1, thefile);
       int    my_errno = errno;
 
-      fclose(thefile);
+      // the data may still sit in the stdio buffer: a failing flush is a failed backup
+      if (fclose(thefile) != 0)
+      {
+         if (  retval == 1
+            || data.empty())
+         {
+            my_errno = errno;
+         }
+         LOG_FMT(LERR, "fclose(%s) failed: %s (%d)\n",
+                 newpath, strerror(my_errno), my_errno);
+         exit(EX_SOFTWARE);
+      }
 
       if (  retval == 1
          || data.empty())
